@@ -24,6 +24,15 @@
       left out; account-level watch-only (imported xpub accounts) is modelled;
     - a nil-pointer dereference of the Go code is the result [EPanic];
     - invalid BIP32 children (probability 2^-127) are not modelled;
+    - hardened steps: every private extended key carries the width hdkeychain
+      holds it at ([Keys.width]: read back from the database = Full, result of
+      a derivation = Short), DeriveNonStandard's rule follows from the width,
+      and a step made with another rule than the specified one
+      ([Keys.spec_rule]) leaves the key tree ([Keys.off_spec]);
+    - an imported key number names the WIF: private scalar and the
+      "compressed public key" flag (two numbers for the two serializations of
+      one scalar); a script number names the script bytes together with the
+      kind of address (P2SH, P2WSH, taproot script tree);
     - Manager.Unlock: the Go code walks the scoped managers in map order and,
       per manager, first decrypts the cached account keys and then works off
       deriveOnUnlock; the model does the two phases for all scopes at once
@@ -84,11 +93,12 @@ Record acct_row := mkRow {
 Inductive addr_row :=
 | RChain (acct branch index : N)                  (* dbChainAddressRow *)
 | RImported (pubk : skey) (privk : option skey)   (* dbImportedAddressRow *)
-| RScript (sc : N).                               (* dbScriptAddressRow *)
+| RScript (sc : N) (secret : bool).               (* dbScriptAddressRow (secret) / dbWitnessScriptAddressRow (isSecretScript) *)
 
 Record disk := mkDisk {
   d_master : skey;                                 (* master HD private key *)
   d_pass : N;                                      (* passphrase the master private key params accept *)
+  d_pubpass : N;                                   (* passphrase the master public key params accept *)
   d_scopes : list (scope * (schema * skey));       (* scope schema, coin-type private key *)
   d_last : list (scope * N);                       (* lastAccount *)
   d_accts : list ((scope * N) * acct_row);
@@ -128,6 +138,7 @@ Record saddr := mkSA {
   sa_script : N;
   sa_enc : option N;             (* scriptEncrypted *)
   sa_ct : option N;              (* scriptClearText *)
+  sa_secret : bool;              (* isSecretScript (always true for P2SH scripts) *)
 }.
 
 Inductive mobj := MKey (a : maddr) | MScript (a : saddr).
@@ -157,12 +168,13 @@ Definition sp_dec : forall a b : scope * dpath, {a = b} + {a <> b}.
 Proof. decide equality; [apply dpath_eq_dec | apply scope_eq_dec]. Defined.
 
 (** field setters *)
-Definition set_d_pass v d := mkDisk (d_master d) v (d_scopes d) (d_last d) (d_accts d) (d_next d) (d_addrs d).
-Definition set_d_scopes v d := mkDisk (d_master d) (d_pass d) v (d_last d) (d_accts d) (d_next d) (d_addrs d).
-Definition set_d_last v d := mkDisk (d_master d) (d_pass d) (d_scopes d) v (d_accts d) (d_next d) (d_addrs d).
-Definition set_d_accts v d := mkDisk (d_master d) (d_pass d) (d_scopes d) (d_last d) v (d_next d) (d_addrs d).
-Definition set_d_next v d := mkDisk (d_master d) (d_pass d) (d_scopes d) (d_last d) (d_accts d) v (d_addrs d).
-Definition set_d_addrs v d := mkDisk (d_master d) (d_pass d) (d_scopes d) (d_last d) (d_accts d) (d_next d) v.
+Definition set_d_pass v d := mkDisk (d_master d) v (d_pubpass d) (d_scopes d) (d_last d) (d_accts d) (d_next d) (d_addrs d).
+Definition set_d_pubpass v d := mkDisk (d_master d) (d_pass d) v (d_scopes d) (d_last d) (d_accts d) (d_next d) (d_addrs d).
+Definition set_d_scopes v d := mkDisk (d_master d) (d_pass d) (d_pubpass d) v (d_last d) (d_accts d) (d_next d) (d_addrs d).
+Definition set_d_last v d := mkDisk (d_master d) (d_pass d) (d_pubpass d) (d_scopes d) v (d_accts d) (d_next d) (d_addrs d).
+Definition set_d_accts v d := mkDisk (d_master d) (d_pass d) (d_pubpass d) (d_scopes d) (d_last d) v (d_next d) (d_addrs d).
+Definition set_d_next v d := mkDisk (d_master d) (d_pass d) (d_pubpass d) (d_scopes d) (d_last d) (d_accts d) v (d_addrs d).
+Definition set_d_addrs v d := mkDisk (d_master d) (d_pass d) (d_pubpass d) (d_scopes d) (d_last d) (d_accts d) (d_next d) v.
 
 Definition set_m_locked v m := mkMem v (m_pass m) (m_scopes m) (m_accts m) (m_addrs m) (m_queue m) (m_pk m) (m_heap m) (m_handles m).
 Definition set_m_pass v m := mkMem (m_locked m) v (m_scopes m) (m_accts m) (m_addrs m) (m_queue m) (m_pk m) (m_heap m) (m_handles m).
@@ -241,7 +253,8 @@ Inductive dres := DOk (k : xkey) | DErr | DPanic.
 
 (** deriveKey: [DPanic] = the private flag is set but acctKeyPriv is nil. *)
 Definition derive_key (ai : acct_info) (branch index : N) (private : bool) : dres :=
-  let acct_key := if private then option_map XPriv (ai_priv ai) else Some (XPub (ai_pub ai)) in
+  (* acctKeyPriv comes from NewKeyFromString (loadAccountInfo / Unlock): full width *)
+  let acct_key := if private then option_map (fun k => XPriv k Full) (ai_priv ai) else Some (XPub (ai_pub ai)) in
   match acct_key with
   | None => DPanic
   | Some ak =>
@@ -256,7 +269,7 @@ Definition derive_key (ai : acct_info) (branch index : N) (private : bool) : dre
 Definition mk_maddr (s : scope) (path : dpath) (key : xkey) (fmt : afmt) (ai : acct_info) : option maddr :=
   match key with
   | XPub k => Some (mkMA s path fmt (Pub k) false false None None)
-  | XPriv k =>
+  | XPriv k _ =>
     let ma := mkMA s path fmt (Pub k) false false (Some (Priv k)) (Some (Priv k)) in
     match ai_priv ai with
     | None => Some ma
@@ -337,8 +350,8 @@ Definition row_to_managed (st : state) (s : scope) (sch : schema) (row : addr_ro
     let '(st1, oid) := alloc st (MKey (mkMA s imported_path (ext_fmt sch) (Pub pubk) true false
                                             (option_map Priv privk) None)) in
     Ok st1 oid
-  | RScript sc =>
-    let '(st1, oid) := alloc st (MScript (mkSA s sc (Some sc) None)) in
+  | RScript sc secret =>
+    let '(st1, oid) := alloc st (MScript (mkSA s sc (Some sc) None secret)) in
     Ok st1 oid
   end.
 
@@ -453,7 +466,7 @@ Definition index_range (from : N) (count : nat) : list N := map (fun k => from +
 Definition next_addresses (st : state) (s : scope) (sch : schema) (a n : N) (internal : bool) : res (list nat) :=
   bind (load_acct st s sch a) (fun st ai =>
     let watch_only := negb (is_some (ai_enc ai)) in
-    let acct_key := if negb (locked st) && negb watch_only then option_map XPriv (ai_priv ai)
+    let acct_key := if negb (locked st) && negb watch_only then option_map (fun k => XPriv k Full) (ai_priv ai)
                     else Some (XPub (ai_pub ai)) in
     let branch := if internal then internal_branch else external_branch in
     let next := if internal then ai_next_int ai else ai_next_ext ai in
@@ -483,7 +496,7 @@ Definition extend_addresses (extend_priv : bool) (st : state) (s : scope) (sch :
   bind (load_acct st s sch a) (fun st ai =>
     let watch_only := if extend_priv then negb (is_some (ai_enc ai))     (* len(acctKeyEncrypted) == 0 *)
                       else is_some (ai_priv ai) in                       (* acctKeyPriv != nil *)
-    let acct_key := if negb (locked st) && negb watch_only then option_map XPriv (ai_priv ai)
+    let acct_key := if negb (locked st) && negb watch_only then option_map (fun k => XPriv k Full) (ai_priv ai)
                     else Some (XPub (ai_pub ai)) in
     let branch := if internal then internal_branch else external_branch in
     let next := if internal then ai_next_int ai else ai_next_ext ai in
@@ -497,7 +510,7 @@ Definition extend_addresses (extend_priv : bool) (st : state) (s : scope) (sch :
       match x_derive ak branch with
       | None => Err st EKeyChain
       | Some bk =>
-        bind (make_objs st s fmt ai bk a (child_num (ai_pub ai)) branch 0 internal
+        bind (make_objs st s fmt ai bk a (child_num (ai_pub ai)) branch (ai_fp ai) internal
                         (index_range next (N.to_nat (last + 1 - next)))) (fun st objs =>
           let st := write_only st s a branch objs in
           let st := cache_objs st s branch (locked st && negb watch_only) objs in
@@ -510,7 +523,7 @@ Definition extend_addresses (extend_priv : bool) (st : state) (s : scope) (sch :
 Definition clear_ct (o : mobj) : mobj :=
   match o with
   | MKey ma => MKey (set_keys (ma_enc ma) None ma)
-  | MScript sa => MScript (mkSA (sa_scope sa) (sa_script sa) (sa_enc sa) None)
+  | MScript sa => MScript (mkSA (sa_scope sa) (sa_script sa) (sa_enc sa) None (sa_secret sa))
   end.
 
 Definition clear_priv (ai : acct_info) : acct_info :=
@@ -543,7 +556,7 @@ Fixpoint derive_queue (st : state) (q : list (scope * nat * N * N)) : res unit :
       | Some sch =>
         bind (load_acct st s sch (dp_iacct (ma_path ma))) (fun st ai =>
           match derive_key ai b i (is_some (ai_priv ai)) with
-          | DOk (XPriv k) =>
+          | DOk (XPriv k _) =>
             let st := heap_set st oid (MKey (set_keys (Some (Priv k)) (Some (Priv k)) ma)) in
             derive_queue (upd_mem (fun m => set_m_queue (tl (m_queue m)) m) st) rest
           | DOk (XPub _) => Err st EPanic          (* privKey is nil: privKey.Serialize() *)
@@ -623,12 +636,13 @@ Definition priv_key (st : state) (oid : nat) : state * pres :=
 Definition script_of (st : state) (oid : nat) : state * sres :=
   match heap_get st oid with
   | Some (MScript sa) =>
-    if locked st then (st, SErr ELocked)
+    (* a script that is not secret is encrypted with the public crypto key: readable while locked *)
+    if sa_secret sa && locked st then (st, SErr ELocked)
     else match sa_enc sa with
          | None => (st, SErr ECrypto)
          | Some sc =>
            let ct := match sa_ct sa with Some c => c | None => sc end in
-           (heap_set st oid (MScript (mkSA (sa_scope sa) (sa_script sa) (sa_enc sa) (Some ct))), SOk ct)
+           (heap_set st oid (MScript (mkSA (sa_scope sa) (sa_script sa) (sa_enc sa) (Some ct) (sa_secret sa))), SOk ct)
          end
   | _ => (st, SErr EOther)
   end.
@@ -675,10 +689,12 @@ Inductive op :=
 | ODerive (s : scope) (p : dpath)                          (* DeriveFromKeyPath *)
 | ODeriveCache (s : scope) (p : dpath)                     (* DeriveFromKeyPathCache *)
 | OImportKey (s : scope) (k : N)                           (* ImportPrivateKey *)
-| OImportScript (s : scope) (sc : N)                       (* ImportScript *)
+| OImportScript (s : scope) (sc : N) (secret : bool)       (* ImportScript (secret) / ImportWitnessScript / ImportTaprootScript *)
 | OProps (s : scope) (a : N)                               (* AccountProperties: key counts *)
 | OPriv (h : nat)                                          (* PrivKey() of the h-th returned address *)
-| OScript (h : nat).                                       (* Script() of the h-th returned address *)
+| OScript (h : nat)                                        (* Script() of the h-th returned address *)
+| OImportPub (s : scope) (k : N)                           (* ImportPublicKey *)
+| OChangePubPass (old new : N).                            (* ChangePassphrase(private = false) *)
 
 Inductive out :=
 | OutOk
@@ -692,19 +708,28 @@ Inductive out :=
 Definition fresh_mem (d : disk) : mem :=
   mkMem true (d_pass d) (map (fun kv => (fst kv, fst (snd kv))) (d_scopes d)) [] [] [] [] [] [].
 
-(** createManagerKeyScope: coin-type key and account 0 of a scope.
+(** DeriveNonStandard(i + HardenedKeyStart) of a private key (cannot fail) *)
+Definition hard_child (x : xkey) (i : N) : xkey :=
+  match x_derive x (i + hardened_start) with Some y => y | None => x end.
+
+(** createManagerKeyScope: coin-type key and account 0 of a scope, derived in
+    one go from the root key ([root]: NewMaster's output in Create, the master
+    key read back from the database in NewScopedKeyManager - full width either
+    way): deriveCoinTypeKey = root -> purpose' -> coin', deriveAccountKey =
+    coin' -> 0', each step DeriveNonStandard on the result of the one before.
     createManagerNS (waddrmgr.Create, default scopes) stores lastAccount = 0;
     whether NewScopedKeyManager does is the source fact [f_scope_last]. *)
 Definition create_scope (set_last : bool) (d : disk) (s : scope) (sch : schema) : disk :=
-  let coin := child (child (d_master d) (fst s) true) (snd s) true in
-  let acct := child coin 0 true in
-  set_d_scopes (d_scopes d ++ [(s, (sch, coin))])
+  let root := XPriv (d_master d) Full in
+  let coin := hard_child (hard_child root (fst s)) (snd s) in
+  let acct := x_skey (hard_child coin 0) in
+  set_d_scopes (d_scopes d ++ [(s, (sch, x_skey coin))])
     (set_d_last (if set_last then aset scope_eq_dec (d_last d) s 0 else d_last d)
        (set_d_accts (aset sa_dec (d_accts d) (s, 0) (mkRow ADefault acct (Some acct) None 0 0)) d)).
 
 (** waddrmgr.Create followed by waddrmgr.Open *)
 Definition init (seed pass : N) : state :=
-  let d0 := mkDisk (master seed) pass [] [] [] [] [] in
+  let d0 := mkDisk (master seed) pass 0 [] [] [] [] [] in
   let d := fold_left (fun d kv => create_scope true d (fst kv) (snd kv)) default_scopes d0 in
   mkState d (fresh_mem d).
 
@@ -771,7 +796,8 @@ Definition step (f : facts) (st : state) (o : op) : state * out :=
       | None => (st, OutErr EScopeNotFound)
       | Some (_, coin) =>
         new_account_row st s name (fun a =>
-          match x_derive (XPriv coin) (a + hardened_start) with
+          (* newAccount: the coin-type key is read back from the database (full width) *)
+          match x_derive (XPriv coin Full) (a + hardened_start) with
           | Some k => Some (mkRow ADefault (x_skey k) (Some (x_skey k)) None 0 name)
           | None => None
           end)
@@ -833,7 +859,7 @@ Definition step (f : facts) (st : state) (o : op) : state * out :=
         | Some ai =>
           match derive_key ai (dp_branch p) (dp_index p)
                            (negb (locked st) && (if f_cache_guard f then is_some (ai_priv ai) else true)) with
-          | DOk (XPriv k) =>
+          | DOk (XPriv k _) =>
             (upd_mem (fun m => set_m_pk (aset sp_dec (m_pk m) (s, p) (Priv k)) m) st, OutKey (Priv k))
           | DOk (XPub _) => (st, OutErr ENotPriv)
           | DErr => (st, OutErr EKeyChain)
@@ -857,13 +883,13 @@ Definition step (f : facts) (st : state) (o : op) : state * out :=
           let '(st3, r) := report (cache_addr st2 s key oid) oid in
           (st3, OutAddrs [r]))
 
-  | OImportScript s sc =>
+  | OImportScript s sc secret =>
     with_scope st s (fun _ =>
-      if locked st then (st, OutErr ELocked)
+      if secret && locked st then (st, OutErr ELocked)
       else if exists_address st s (KScript sc) then (st, OutErr EDuplicate)
       else
-        let st1 := upd_disk (fun d => set_d_addrs (aset sk_dec (d_addrs d) (s, KScript sc) (RScript sc)) d) st in
-        let '(st2, oid) := alloc st1 (MScript (mkSA s sc (Some sc) (Some sc))) in
+        let st1 := upd_disk (fun d => set_d_addrs (aset sk_dec (d_addrs d) (s, KScript sc) (RScript sc secret)) d) st in
+        let '(st2, oid) := alloc st1 (MScript (mkSA s sc (Some sc) (Some sc) secret)) in
         let '(st3, r) := report (cache_addr st2 s (KScript sc) oid) oid in
         (st3, OutAddrs [r]))
 
@@ -893,6 +919,22 @@ Definition step (f : facts) (st : state) (o : op) : state * out :=
       | (st', SErr e) => (st', OutErr e)
       end
     end
+
+  | OImportPub s k =>
+    (* ImportPublicKey: no private key, hence no need to be unlocked; compressed serialization *)
+    with_scope st s (fun sch =>
+      let ma := mkMA s imported_path (ext_fmt sch) (Pub (imp_pub_key k)) true false None None in
+      let key := obj_akey (MKey ma) in
+      if exists_address st s key then (st, OutErr EDuplicate)
+      else
+        let st1 := upd_disk (fun d => set_d_addrs (aset sk_dec (d_addrs d) (s, key) (RImported (imp_pub_key k) None)) d) st in
+        let '(st2, oid) := alloc st1 (MKey ma) in
+        let '(st3, r) := report (cache_addr st2 s key oid) oid in
+        (st3, OutAddrs [r]))
+
+  | OChangePubPass old new =>
+    if negb (old =? d_pubpass (st_disk st)) then (st, OutErr EWrongPass)
+    else (upd_disk (set_d_pubpass new) st, OutOk)
   end.
 
 (** a history: the outputs of all operations, in order *)
